@@ -232,7 +232,7 @@ def eval_part(rep, tier):
         pts = [lo + i * step for i in range(npts)]
         if r.random() < 0.5 and pts[0] < mode < pts[-1] and mode not in pts:
             pts = sorted(pts + [mode])
-        gs = r.choice([5, 9, 17, 33, 65])
+        gs = r.choice([5, 9, 17, 33, 65, 6, 10, 16, 32, 64])      # odd and even (the library default, 64, is even)
         rec = Rec1D(fn)
         try:
             with warnings.catch_warnings():
@@ -258,7 +258,13 @@ def eval_part(rep, tier):
                 rep.count("eval dropped (values not exact doubles)")
             continue
         tbl = C.clist([f"({C.cq(a)}, {C.cq(b)})" for a, b in rec.log])
-        cases.append(f"({C.cq(BS_TOL)}, {ql(pts)}, {C.cnat(gs)}, {tbl}, {ql([C.frac(v) for v in xg])})")
+        if gs % 2 == 0:
+            # an even linspace is not exact in double precision: the grid / evaluation sequence is only
+            # compared for the odd sizes; the normalisation of the returned table (below) for all
+            cases.append("skip")
+            rep.count("eval grid comparison skipped (even grid_size, inexact linspace)")
+        else:
+            cases.append(f"({C.cq(BS_TOL)}, {ql(pts)}, {C.cnat(gs)}, {tbl}, {ql([C.frac(v) for v in xg])})")
         ucases.append((len(metas) - 1, f"({C.cq(Fraction(1, 10 ** 10))}, {ql([C.frac(v) for v in xg])}, "
                        f"{ql([C.frac(v) for v in pg])})"))
         # densities are proportional to exp(func): compare a few entries with the largest one
